@@ -35,6 +35,9 @@ int main(int argc, char *argv[]) {
                  std::strcmp(argv[i], "--trace") == 0) {
         trace = true;
       } else if (std::strcmp(argv[i], "--max-cycles") == 0) {
+        if (i + 1 >= argc) {
+          throw std::runtime_error(std::string("missing argument to ")+argv[i]);
+        }
         maxCycles = std::stoull(argv[++i]);
       } else if (argv[i][0] == '-') {
           throw std::runtime_error(std::string("unrecognised argument: ")+argv[i]);
